@@ -33,20 +33,28 @@ impl RuntimeError {
     pub fn get_code(&self) -> i32 {
         match self {
             Self::ReturnWithoutGoSub => 3,
+            Self::OutOfData => 4,
             Self::IllegalFunctionCall => 5,
             Self::Overflow => 6,
             Self::SubscriptOutOfRange => 9,
             Self::DivisionByZero => 11,
             Self::TypeMismatch => 13,
             Self::ResumeWithoutError => 20,
+            Self::VariableRequired => 40,
+            Self::FieldOverflow => 50,
             Self::BadFileNameOrNumber => 52,
             Self::FileNotFound => 53,
+            Self::BadFileMode => 54,
             Self::FileAlreadyOpen => 55,
+            Self::DeviceIOError(_) => 57,
+            Self::BadRecordLength => 59,
             Self::InputPastEndOfFile => 62,
+            Self::BadRecordNumber => 63,
             // the following are not QBasic codes
             Self::Other(_) => 257,
             Self::ForLoopZeroStep => 258,
-            _ => panic!("not implemented for {:?}", self),
+            Self::ElementNotDefined => 259,
+            Self::LinterError(_) => 260,
         }
     }
 }
